@@ -592,3 +592,18 @@ PROPS["C15"]["level_text"] += (
     "(C15_system_listener_lookup); in every reachable state (all scenes, all histories) the tracks are clean, so a "
     "top-level spatial track whose listener was dropped is exactly silent in the next callback "
     "(C15_system_reachable_dropped_listener_silent)")
+
+# --- gaps found by the second round of seeded changes ---
+# C18 ("streaming the same file yields the same frames … from any start position and after any sequence of seeks"):
+# the C09 side-by-side suite also serves C18 — its decoder is ahead of the playback (the wav suite renders every frame
+# as soon as it is decoded), so a seek_by measured from the decoder's position instead of the playback position shows,
+# and its long sounds (> 2 x 16384 frames) make the streaming sound's frame ring wrap. The C18 clause is stated directly
+# by the implementation-side oracle stream_frames_not_loaded_frames_at_position (neutral index-coded streams: the frames
+# heard are the loaded sound's frames at the positions played, where a seek_to lands on the frame nearest to its
+# argument and a seek_by on the frame nearest to the handle's reported position + its argument).
+PROPS["C18"]["suites"] += [{"name": "stream", "quick": 300, "thorough": 3000}]
+PROPS["C18"]["level_text"] += (
+    "; LONG STREAMS: WAV files of more than 2 x 16384 frames are streamed to their end (the streaming sound's frame ring wraps "
+    "twice) and compared frame by frame with the static load; suite stream (shared with C09): scripted decoders that run AHEAD of "
+    "the playback, long sounds, seek_to / seek_by at any lead up to the full ring, with the oracle "
+    "stream_frames_not_loaded_frames_at_position stating the clause on the real code")
